@@ -752,3 +752,24 @@ def _class_fixed_point(repo, ob, failure):
 
 GENERATORS.insert(0, ("C05.class.", _class_fixed_point))
 GENERATORS.insert(0, ("C06.class.", _class_fixed_point))
+
+
+def _tspan_lines(repo, ob, failure):
+    """each line of a multi-line text is the character data of its own tspan, verbatim; only a line
+    with no characters gets the zero-width-space placeholder"""
+    cases = [(r'a\n \nb', ["a", " ", "b"]), (r'a\n\nb', ["a", "​", "b"]), (r' lead\ntrail ', [" lead", "trail "])]
+    for text, want in cases:
+        doc = '<svg><rect wh="20" text="%s"/></svg>' % text
+        r = run_svgdx(repo, doc)
+        if r["rc"] != 0:
+            continue
+        tree, err = _parse_xml(r["out"])
+        if tree is None:
+            return {"input": doc, "observed": "output not well-formed: " + err, "expected": repr(want)}
+        got = ["".join(t.itertext()) for t in tree.iter() if t.tag.endswith("tspan")]
+        if got != want:
+            return {"input": doc, "observed": "tspan character data %r" % got, "expected": repr(want)}
+    return None
+
+
+GENERATORS.insert(0, ("C19.tspan.", _tspan_lines))
